@@ -2,6 +2,7 @@
 from py import vlib
 
 MODELS = ['mlp', 'linear_nobias', 'seq', 'conv', 'emb', 'embpad', 'norm', 'gn', 'sublinear']
+SENS_MODELS = MODELS + ['rnnpack']
 CLIPS = ['flat', 'per_layer', 'adaptive', 'ghost']
 
 
@@ -11,7 +12,7 @@ def gen_sens(ctx, n):
     for _ in range(n):
         clip = r.choice(CLIPS)
         nn_ = r.choice([2, 3, 4, 5])
-        out.append({'seed': r.randint(0, 10**6), 'model': r.choice(MODELS), 'clipping': clip, 'red': r.choice(['mean', 'sum']),
+        out.append({'seed': r.randint(0, 10**6), 'model': r.choice(SENS_MODELS), 'clipping': clip, 'red': r.choice(['mean', 'sum']),
                     'C': r.choice([0.01, 0.3, 1.0, 7.0]), 'n': nn_, 'drop': r.randrange(nn_), 'nm': 1.0, 'B': nn_, 'split': r.choice([1, 1, 2, 3]),
                     'wscale': r.choice([0.1, 1.0, 3.0]), 'xscale': r.choice([1e-4, 1e-2, 1.0, 10.0, 1e3]), 'tscale': r.choice([1e-3, 1.0, 1e3])})
     return out
